@@ -410,3 +410,9 @@ func maxInt(a, b int) int {
 	}
 	return b
 }
+
+func init() {
+	if os.Getenv("GOVC_DUMP_SLICE") != "" {
+		dumpSliceDir = os.Getenv("GOVC_DUMP_SLICE")
+	}
+}
